@@ -343,7 +343,7 @@ Proof. destruct rest as [|t r]; simpl; auto. destruct t; simpl; auto; lia. Qed.
 (* the tokens an expression can start with *)
 Definition starter (t : token) : bool :=
   match t with
-  | TId _ | TInt _ | TDec _ _ _ | TDate _ _ _ | TStr _ _ | TPlaceS | TPlaceN _ | TLP | TPlus | TMinus
+  | TId _ | TInt _ | TDec _ _ _ | TDate _ _ _ | TStr _ | TPlaceS | TPlaceN _ | TLP | TPlus | TMinus
   | TKw KNOT | TKw KTRUE | TKw KFALSE | TKw KSELECT => true
   | _ => false
   end.
@@ -1724,14 +1724,14 @@ Proof.
     destruct k; try reflexivity. simpl in Hr. lia.
 Qed.
 
-Lemma at_ok sf R : match R with TId _ :: _ | TStr _ _ :: _ => False | _ => True end ->
+Lemma at_ok sf R : match R with TId _ :: _ | TStr _ :: _ => False | _ => True end ->
   p_at_opt (at_toks sf ++ R) = (sf, R).
 Proof.
   intros HR. destruct sf as [n|]; [reflexivity|]. cbn [at_toks app].
   destruct R as [|t r]; [reflexivity|]. destruct t; try reflexivity. contradiction.
 Qed.
-Lemma from_part_hd f R : match R with TId _ :: _ | TStr _ _ :: _ => False | _ => True end ->
-  match from_part f ++ R with TId _ :: _ | TStr _ _ :: _ => False | _ => True end.
+Lemma from_part_hd f R : match R with TId _ :: _ | TStr _ :: _ => False | _ => True end ->
+  match from_part f ++ R with TId _ :: _ | TStr _ :: _ => False | _ => True end.
 Proof. destruct f; [intros _; exact I|intros H; exact H]. Qed.
 
 Theorem stmt_roundtrip : forall s, wf_stmt s = true -> parse_tokens (print_stmt s) = Some (stmt_erase s).
@@ -1768,7 +1768,7 @@ Proof.
     { unfold fuel, fuel_for. len. }
     assert (EA : match (match account with Some a => [str_tok a] | None => [] end
                               ++ at_toks summary ++ from_part from) with
-                 | TStr _ s0 :: r' => (Some s0, r')
+                 | TStr s0 :: r' => (Some s0, r')
                  | _ => (None, match account with Some a => [str_tok a] | None => [] end
                               ++ at_toks summary ++ from_part from)
                  end = (account, at_toks summary ++ from_part from)).
